@@ -113,7 +113,16 @@ class FaultRig(ClientRig):
     def _stale(self, awaited):
         """a legal response left over from an earlier transfer: different multiplexer or different phase;
         never bit-identical in form to the awaited one"""
-        kind = sx.choice(4, "stale_kind") if getattr(self, "only_stale", None) is None else self.only_stale
+        kind = sx.choice(5, "stale_kind") if getattr(self, "only_stale", None) is None else self.only_stale
+        if kind == 4 and not bool((awaited[0] >> 5) == 2):
+            kind = 0
+        if kind == 4:
+            # the late answer to an earlier upload of the *same* object, when it still held a value of another length:
+            # same form as the awaited initiate response, another announced size.  The client cannot tell it from the
+            # real one at this point; what follows does not fit, and it must not end in success with other data.
+            sz = sx.fresh_int("st_size", 5, 60)
+            sx.reach("stale-same-object")
+            return sx.mkbytes([0x41, awaited[1], awaited[2], awaited[3], sz, 0, 0, 0])
         if kind == 0:       # expedited upload response for another multiplexer
             i2 = sx.fresh_int("st_idx", 0, 0xFFFF)
             s2 = sx.fresh_int("st_sub", 0, 0xFF)
@@ -418,7 +427,7 @@ META = dict(
                     "OS-thread timing"],
     assumptions=["MAX_RETRIES = 1 (library default)"],
     stubs=["queue (time-out = empty queue)", "time", "struct", "io model", "binascii.crc_hqx model", "logging"],
-    required_reach=["refused-with-stale", "failed-loudly", "completed-despite-fault", "timeout-abort", "follow-up", "stale-after-timeout",
+    required_reach=["stale-same-object", "refused-with-stale", "failed-loudly", "completed-despite-fault", "timeout-abort", "follow-up", "stale-after-timeout",
                     "stale-before", "real-server", "no-fault-at-this-step"],
     limits=dict(quick=dict(max_decisions=50000), thorough=dict(max_decisions=50000)),
     validate_every=dict(quick=4, thorough=20),
